@@ -25,6 +25,7 @@ type BFS struct {
 	WorkerEnv       []string
 	Roots           [][]string
 	DiedIsViolation bool // engines that look for process death (C14) set this
+	FlakyOK         bool // report a violation that came back in at least one of five replays (engines whose executions are sequential real code)
 	Timeout         time.Duration
 	MaxReport       int
 	Quiet           bool
@@ -124,7 +125,7 @@ func (b *BFS) Run() *BFSResult {
 			resps = append(resps, rs...)
 			done = append(done, frontier[off:end]...)
 			// determinism self-check: replay the first few executions of every level a second time
-			if off == 0 {
+			if off == 0 && res.HarnessErr == "" {
 				n := pool.N
 				if n > len(reqs) {
 					n = len(reqs)
@@ -139,7 +140,15 @@ func (b *BFS) Run() *BFSResult {
 						tr := run([]*Request{{Cfg: cfg, Path: reqs[i].Path, Final: final, Trace: true}, {Cfg: cfg, Path: reqs[i].Path, Final: final, Trace: true}})
 						res.HarnessErr = fmt.Sprintf("nondeterministic replay of %v:\n  key1=%s\n  key2=%s\n  obs1=%s obs2=%s\n--- keytext 1\n%s\n--- keytext 2\n%s\n--- trace A\n%s\n--- trace B\n%s", reqs[i].Path, rs[i].Key, rs2[i].Key, rs[i].Obs, rs2[i].Obs, rs[i].KeyText, rs2[i].KeyText,
 							strings.Join(tr[0].Note, "\n"), strings.Join(tr[1].Note, "\n"))
-						return res
+						if !b.FlakyOK {
+							return res
+						}
+						// sequential real code on a private directory: the replica itself answered differently the second
+						// time.  Nothing is claimed from this search any more (Finish exits 2), but it goes on, because a
+						// change that makes the code depend on the file system's layout usually also has a failing path
+						// that fails every time, and that one is worth finding and reporting.
+						fmt.Fprintf(os.Stderr, "NONDETERMINISTIC REPLAY at %v; the search continues only to look for a reproducible violation\n", reqs[i].Path)
+						break
 					}
 					res.DeterminismOK++
 				}
@@ -190,6 +199,7 @@ func (b *BFS) Run() *BFSResult {
 						again[j] = &Request{Cfg: cfg, Path: path, Final: final}
 					}
 					stable := true
+					repro := 0
 					for _, r2 := range run(again) {
 						ok := false
 						for _, v2 := range r2.Violations {
@@ -202,7 +212,18 @@ func (b *BFS) Run() *BFSResult {
 						}
 						if !ok {
 							stable = false
+						} else {
+							repro++
 						}
+					}
+					if !stable && b.FlakyOK && repro > 0 {
+						// the execution is sequential real code on a private directory: what differs between replays is an
+						// answer of the kernel or file system (extent layout, write-back) the harness does not choose.  The
+						// oracle compares the real code with the model in each execution on its own, so a failure seen on
+						// this path twice or more is a failure of the code, reported with how often it came back.
+						v.Detail = fmt.Sprintf("[reproduced in %d of 5 replays of the same path: the failure depends on an answer of the kernel or file system]\n%s", repro, v.Detail)
+						fv.Violation = v
+						stable = true
 					}
 					if !stable {
 						res.Unstable = append(res.Unstable, fv)
@@ -330,9 +351,14 @@ func firstLines(s string, n int) string {
 
 // Finish writes the evidence file for a BFS-decided property and returns the process exit code.
 func (b *BFS) Finish(res *BFSResult, rule string, assumptions []string, extra map[string]interface{}) int {
-	if res.HarnessErr != "" {
+	if res.HarnessErr != "" && len(res.Violations) == 0 {
 		fmt.Fprintf(os.Stderr, "HARNESS ERROR (check is broken, nothing is claimed): %s\n", res.HarnessErr)
 		return 2
+	}
+	if res.HarnessErr != "" {
+		// violations were replayed and reported before the search stopped: they stand, the coverage claim does not
+		fmt.Fprintf(os.Stderr, "HARNESS ERROR after %d reported violation(s); the search stopped there: %s\n", len(res.Violations), res.HarnessErr)
+		res.Exhaustive = false
 	}
 	cov := map[string]interface{}{
 		"states":                        res.States,
